@@ -30,7 +30,9 @@ Record reg_ok (X : list Z) (ms : list module) (sb : list (Z * list Z)) (lg : lis
   ro_bound : forall m, In m ms -> m_conn m <= nu;
   ro_xreg : forall c, In c X -> m_reg (find_mod c ms) = true /\ m_closed (find_mod c ms) = true;
   ro_xnodup : NoDup X;
-  ro_logbound : forall c, In c lg -> 0 <= c <= nu
+  ro_logbound : forall c, In c lg -> 0 <= c <= nu;
+  (* since /repo 926cc4e: whoever is in the logger set is a key of the module table *)
+  ro_loglive : forall c, In c lg -> m_reg (find_mod c ms) = true
 }.
 
 Definition RegInvX (X : list Z) (s : mstate) : Prop := reg_ok X (mods s) (subs s) (loggers s) (next_uid s).
@@ -106,7 +108,7 @@ Lemma reg_ok_upd X ms sb lg nu c f :
   ((forall m, m_logger (f m) = m_logger m) \/ ~ In c lg) ->
   reg_ok X (upd_mod c f ms) sb lg nu.
 Proof.
-  intros R (Kc & Ks & Kr & Kcl & Kcn) Hc Hl. destruct R as [R1 R2 R3 R4 R5 R6 R7 R8 R9 R10 R11 R12 R13 R14].
+  intros R (Kc & Ks & Kr & Kcl & Kcn) Hc Hl. destruct R as [R1 R2 R3 R4 R5 R6 R7 R8 R9 R10 R11 R12 R13 R14 R15].
   assert (Hfind : forall c', let m' := find_mod c' (upd_mod c f ms) in let m := find_mod c' ms in
             m_reg m' = m_reg m /\ m_closed m' = m_closed m /\ m_subs m' = m_subs m /\
             m_connected m' = m_connected m /\ ((forall m, m_logger (f m) = m_logger m) \/ c' <> c -> m_logger m' = m_logger m)).
@@ -141,6 +143,7 @@ Proof.
   - intros c' Hin. destruct (R12 c' Hin) as [A1 A2]. destruct (Hfind c') as (F1 & F2 & _). rewrite F1, F2. auto.
   - exact R13.
   - exact R14.
+  - intros c' Hin. destruct (Hfind c') as (F1 & _). rewrite F1. auto.
 Qed.
 
 Lemma keeps_count n : keeps (fun m => mm_count m n).
@@ -163,7 +166,7 @@ Proof. repeat split. Qed.
 Lemma reg_ok_drop_subs X ms sb lg nu c ts :
   reg_ok X ms sb lg nu -> reg_ok X ms (drop_subs c ts sb) lg nu.
 Proof.
-  intros [R1 R2 R3 R4 R5 R6 R7 R8 R9 R10 R11 R12 R13 R14]. constructor; auto.
+  intros [R1 R2 R3 R4 R5 R6 R7 R8 R9 R10 R11 R12 R13 R14 R15]. constructor; auto.
   - intros t c' Hin. rewrite alookup_drop_subs in Hin. destruct (zmem t ts); [apply zremove_In in Hin; destruct Hin|]; eauto.
   - intros t. rewrite alookup_drop_subs. destruct (zmem t ts); [apply sorted_zremove|]; auto.
 Qed.
@@ -179,9 +182,10 @@ Qed.
 
 Lemma reg_ok_drop_logger X ms sb lg nu c : reg_ok X ms sb lg nu -> reg_ok X ms sb (zremove c lg) nu.
 Proof.
-  intros [R1 R2 R3 R4 R5 R6 R7 R8 R9 R10 R11 R12 R13 R14]. constructor; auto.
+  intros [R1 R2 R3 R4 R5 R6 R7 R8 R9 R10 R11 R12 R13 R14 R15]. constructor; auto.
   - intros c' Hin. apply zremove_In in Hin. destruct Hin. auto.
   - apply sorted_zremove; auto.
+  - intros c' Hin. apply zremove_In in Hin. destruct Hin. auto.
   - intros c' Hin. apply zremove_In in Hin. destruct Hin. auto.
 Qed.
 
@@ -199,7 +203,7 @@ Lemma reg_ok_close X ms sb lg nu c :
   m_reg (find_mod c ms) = true -> m_closed (find_mod c ms) = false ->
   reg_ok (c :: X) (upd_mod c mm_close ms) sb lg nu.
 Proof.
-  intros [R1 R2 R3 R4 R5 R6 R7 R8 R9 R10 R11 R12 R13 R14] Hs Hl Hc Hreg Hopen.
+  intros [R1 R2 R3 R4 R5 R6 R7 R8 R9 R10 R11 R12 R13 R14 R15] Hs Hl Hc Hreg Hopen.
   assert (Kc : conn_pres mm_close) by (intro; reflexivity).
   constructor.
   - intros t c' Hin. assert (c' <> c) by (intro; subst; exact (Hs t Hin)).
@@ -221,6 +225,7 @@ Proof.
     + destruct (R12 c' Hin) as [A1 A2]. assert (c' <> c) by (intro; subst; congruence). rewrite find_upd_other; auto.
   - constructor; [|exact R13]. intro Hin. destruct (R12 c Hin). congruence.
   - exact R14.
+  - intros c' Hin. assert (c' <> c) by (intro; subst; contradiction). rewrite find_upd_other; auto.
 Qed.
 
 Lemma In_upd_mod_inv c f l m' : NoDup (map m_conn l) -> conn_pres f -> In m' (upd_mod c f l) ->
@@ -241,7 +246,7 @@ Lemma reg_ok_unreg X ms sb lg nu c :
   reg_ok (c :: X) ms sb lg nu -> m_closed (find_mod c ms) = true -> 0 <= c ->
   reg_ok X (upd_mod c mm_unreg ms) sb lg nu.
 Proof.
-  intros [R1 R2 R3 R4 R5 R6 R7 R8 R9 R10 R11 R12 R13 R14] Hcl Hc.
+  intros [R1 R2 R3 R4 R5 R6 R7 R8 R9 R10 R11 R12 R13 R14 R15] Hcl Hc.
   assert (Kc : conn_pres mm_unreg) by (intro; reflexivity).
   assert (Hs : forall t, ~ In c (alookup t sb)).
   { intros t Hin. destruct (R1 t c Hin) as (_ & H & _). congruence. }
@@ -266,6 +271,7 @@ Proof.
     rewrite find_upd_other; auto. apply R12. right. exact Hin.
   - inversion R13; auto.
   - exact R14.
+  - intros c' Hin. assert (c' <> c) by (intro; subst; contradiction). rewrite find_upd_other; auto.
 Qed.
 
 (* ---------- leaves of add/remove subscription ---------- *)
@@ -275,7 +281,7 @@ Lemma reg_ok_sub_one X ms sb lg nu c t :
   ~ In ALLT (m_subs (find_mod c ms)) -> t <> ALLT ->
   reg_ok X (upd_mod c (fun m => mm_subs m (zinsert t (m_subs m))) ms) (aupdate t (zinsert c) sb) lg nu.
 Proof.
-  intros [R1 R2 R3 R4 R5 R6 R7 R8 R9 R10 R11 R12 R13 R14] Hc Hreg Hop Hnall Hne.
+  intros [R1 R2 R3 R4 R5 R6 R7 R8 R9 R10 R11 R12 R13 R14 R15] Hc Hreg Hop Hnall Hne.
   set (f := fun m => mm_subs m (zinsert t (m_subs m))).
   assert (Kc : conn_pres f) by (intro; reflexivity).
   assert (Hcc : m_conn (find_mod c ms) = c) by (apply find_mod_conn_of_reg; exact Hreg).
@@ -308,12 +314,13 @@ Proof.
   - intros c' Hin. destruct (R12 c' Hin) as [A1 A2]. assert (c' <> c) by (intro; subst; congruence). rewrite find_upd_other; auto.
   - exact R13.
   - exact R14.
+  - intros c' Hin. destruct (Z.eq_dec c' c) as [->|Hcn]; [rewrite Hfc; simpl; auto|rewrite find_upd_other; auto].
 Qed.
 
 Lemma reg_ok_aupdate_remove X ms sb lg nu c t :
   reg_ok X ms sb lg nu -> reg_ok X ms (aupdate t (zremove c) sb) lg nu.
 Proof.
-  intros [R1 R2 R3 R4 R5 R6 R7 R8 R9 R10 R11 R12 R13 R14]. constructor; auto.
+  intros [R1 R2 R3 R4 R5 R6 R7 R8 R9 R10 R11 R12 R13 R14 R15]. constructor; auto.
   - intros t' c' Hin. rewrite alookup_aupdate in Hin. destruct (t' =? t) eqn:E; [|eauto].
     apply Z.eqb_eq in E. subst. apply zremove_In in Hin. destruct Hin. eauto.
   - intros t'. rewrite alookup_aupdate. destruct (t' =? t); [apply sorted_zremove|]; auto.
@@ -325,7 +332,7 @@ Lemma reg_ok_set_subs_absent X ms sb lg nu c l :
   (In ALLT l -> l = [ALLT]) ->
   reg_ok X (upd_mod c (fun m => mm_subs m l) ms) sb lg nu.
 Proof.
-  intros [R1 R2 R3 R4 R5 R6 R7 R8 R9 R10 R11 R12 R13 R14] Hc Habs Hl.
+  intros [R1 R2 R3 R4 R5 R6 R7 R8 R9 R10 R11 R12 R13 R14 R15] Hc Habs Hl.
   set (f := fun m => mm_subs m l).
   assert (Kc : conn_pres f) by (intro; reflexivity).
   assert (Hfind : forall c', let m' := find_mod c' (upd_mod c f ms) in let m := find_mod c' ms in
@@ -355,6 +362,7 @@ Proof.
   - intros c' Hin. destruct (R12 c' Hin) as [A1 A2]. destruct (Hfind c') as (F1 & F2 & _). rewrite F1, F2. auto.
   - exact R13.
   - exact R14.
+  - intros c' Hin. destruct (Hfind c') as (F1 & _). rewrite F1. auto.
 Qed.
 
 (* insert c into one list whose type its subs field contains *)
@@ -362,7 +370,7 @@ Lemma reg_ok_list_add X ms sb lg nu c t :
   reg_ok X ms sb lg nu -> m_reg (find_mod c ms) = true -> m_closed (find_mod c ms) = false ->
   In t (m_subs (find_mod c ms)) -> reg_ok X ms (aupdate t (zinsert c) sb) lg nu.
 Proof.
-  intros [R1 R2 R3 R4 R5 R6 R7 R8 R9 R10 R11 R12 R13 R14] Hr Ho Hin. constructor; auto.
+  intros [R1 R2 R3 R4 R5 R6 R7 R8 R9 R10 R11 R12 R13 R14 R15] Hr Ho Hin. constructor; auto.
   - intros t' c' H. rewrite alookup_aupdate in H. destruct (t' =? t) eqn:E; [|eauto].
     apply Z.eqb_eq in E. subst. apply zinsert_In in H. destruct H as [->|H]; [auto|eauto].
   - intros t'. rewrite alookup_aupdate. destruct (t' =? t); [apply sorted_zinsert|]; auto.
@@ -373,7 +381,7 @@ Lemma reg_ok_unsub_one X ms sb lg nu c t :
   reg_ok X (upd_mod c (fun m => mm_subs m (zremove t (m_subs m))) ms) (aupdate t (zremove c) sb) lg nu.
 Proof.
   intros R Hc Hnall. pose proof (reg_ok_aupdate_remove X ms sb lg nu c t R) as R'.
-  destruct R' as [R1 R2 R3 R4 R5 R6 R7 R8 R9 R10 R11 R12 R13 R14].
+  destruct R' as [R1 R2 R3 R4 R5 R6 R7 R8 R9 R10 R11 R12 R13 R14 R15].
   set (f := fun m => mm_subs m (zremove t (m_subs m))).
   assert (Kc : conn_pres f) by (intro; reflexivity).
   constructor; auto.
@@ -397,6 +405,8 @@ Proof.
   - intros m' Hin. apply In_upd_mod in Hin. destruct Hin as [Hin|(m & Hin & _ & ->)]; auto; apply (R11 m Hin).
   - intros c' Hin. destruct (R12 c' Hin) as [A1 A2]. rewrite (find_upd c c' f ms Kc Hc). destruct (c' =? c) eqn:E; [|auto].
     apply Z.eqb_eq in E. subst c'. rewrite (find_mod_conn_of_reg _ _ A1), Z.eqb_refl. simpl. auto.
+  - intros c' Hin. pose proof (R15 c' Hin) as A1. rewrite (find_upd c c' f ms Kc Hc). destruct (c' =? c) eqn:E; [|auto].
+    apply Z.eqb_eq in E. subst c'. rewrite (find_mod_conn_of_reg _ _ A1), Z.eqb_refl. simpl. auto.
 Qed.
 
 Lemma NoDup_snoc (l : list Z) x : NoDup l -> ~ In x l -> NoDup (l ++ [x]).
@@ -410,7 +420,7 @@ Qed.
 Lemma reg_ok_accept X ms sb lg nu :
   reg_ok X ms sb lg nu -> 0 <= nu + 1 -> reg_ok X (ms ++ [new_module (nu + 1)]) sb lg (nu + 1).
 Proof.
-  intros [R1 R2 R3 R4 R5 R6 R7 R8 R9 R10 R11 R12 R13 R14] Hnu.
+  intros [R1 R2 R3 R4 R5 R6 R7 R8 R9 R10 R11 R12 R13 R14 R15] Hnu.
   assert (Hf : forall c, m_reg (find_mod c ms) = true -> find_mod c (ms ++ [new_module (nu + 1)]) = find_mod c ms).
   { intros c Hr. pose proof (find_mod_reg_In c ms Hr) as [Hin Hc].
     apply find_mod_app_found; auto. rewrite <- Hc. apply R7; exact Hin. }
@@ -432,6 +442,7 @@ Proof.
   - intros c Hin. destruct (R12 c Hin) as [A1 A2]. rewrite (Hf c A1). auto.
   - exact R13.
   - intros c Hin. specialize (R14 c Hin). lia.
+  - intros c Hin. pose proof (R15 c Hin) as A1. rewrite (Hf c A1). exact A1.
 Qed.
 
 (* ---------- wrappers without the 0 <= c side condition ---------- *)
@@ -457,21 +468,11 @@ Lemma reg_ok_logger_add X ms sb lg nu c :
   m_closed (find_mod c ms) = false -> m_logger (find_mod c ms) = true -> m_connected (find_mod c ms) = true ->
   reg_ok X ms sb (zinsert c lg) nu.
 Proof.
-  intros [R1 R2 R3 R4 R5 R6 R7 R8 R9 R10 R11 R12 R13 R14] Hr Hc Hl Hcn. constructor; auto.
+  intros [R1 R2 R3 R4 R5 R6 R7 R8 R9 R10 R11 R12 R13 R14 R15] Hr Hc Hl Hcn. constructor; auto.
   - intros c' Hin Hreg. apply zinsert_In in Hin. destruct Hin as [->|Hin]; auto.
   - apply sorted_zinsert; auto.
   - intros c' Hin. apply zinsert_In in Hin. destruct Hin as [->|Hin]; auto.
     pose proof (find_mod_reg_In c ms Hr) as [Hi Hcc]. pose proof (R7 _ Hi). pose proof (R11 _ Hi). lia.
-Qed.
-
-(* a dead (unregistered) module may still be added to the logger set: it stays inert *)
-Lemma reg_ok_logger_add_dead X ms sb lg nu c :
-  reg_ok X ms sb lg nu -> m_reg (find_mod c ms) = false -> 0 <= c <= nu ->
-  reg_ok X ms sb (zinsert c lg) nu.
-Proof.
-  intros [R1 R2 R3 R4 R5 R6 R7 R8 R9 R10 R11 R12 R13 R14] Hr Hb. constructor; auto.
-  - intros c' Hin Hreg. apply zinsert_In in Hin. destruct Hin as [->|Hin]; [congruence|auto].
-  - apply sorted_zinsert; auto.
   - intros c' Hin. apply zinsert_In in Hin. destruct Hin as [->|Hin]; auto.
 Qed.
 
@@ -481,7 +482,7 @@ Lemma reg_ok_connected X ms sb lg nu c :
 Proof.
   intros R Hopen. destruct (Z_le_gt_dec 0 c) as [Hc|Hc].
   2:{ rewrite upd_mod_absent; auto. intros m Hin E. pose proof (ro_pos _ _ _ _ _ R m Hin). lia. }
-  destruct R as [R1 R2 R3 R4 R5 R6 R7 R8 R9 R10 R11 R12 R13 R14].
+  destruct R as [R1 R2 R3 R4 R5 R6 R7 R8 R9 R10 R11 R12 R13 R14 R15].
   assert (Kc : conn_pres mm_connected) by (intro; reflexivity).
   assert (Hfind : forall c', let m' := find_mod c' (upd_mod c mm_connected ms) in let m := find_mod c' ms in
             m_reg m' = m_reg m /\ m_closed m' = m_closed m /\ m_subs m' = m_subs m /\ m_logger m' = m_logger m /\
@@ -510,4 +511,5 @@ Proof.
   - intros c' Hin. destruct (R12 c' Hin) as [A1 A2]. destruct (Hfind c') as (F1 & F2 & _). rewrite F1, F2. auto.
   - exact R13.
   - exact R14.
+  - intros c' Hin. destruct (Hfind c') as (F1 & _). rewrite F1. auto.
 Qed.
